@@ -309,6 +309,8 @@ func (tb TemporalBound) Equals(other TemporalBound) bool {
 		return true // Type equality is enough
 	case NowBound:
 		return true // All 'now' bounds are equal
+	case DurationTemporalBound:
+		return tb.Timestamp == other.Timestamp
 	}
 	return false
 }
